@@ -178,21 +178,147 @@ class ObjBase:
 OBJ = [type('Obj%d' % i, (ObjBase,), {}) for i in range(3)]
 
 
+# ---- what the callables of the value universe emit (the Warnings / WarningMessage / IsDeprecated leaves are the only ones to see it)
+D, U, PD = DeprecationWarning, UserWarning, PendingDeprecationWarning
+_OTHER_MODULE = None
+
+
+def _other_module():
+    """a module of its own (its own globals, hence its own __warningregistry__) with a function that warns"""
+    global _OTHER_MODULE
+    if _OTHER_MODULE is None:
+        import types
+        _OTHER_MODULE = types.ModuleType('match_c06_other_module')
+        exec(compile("import warnings\ndef emit(text, category):\n    warnings.warn(text, category, 1)\n", 'match_c06_other_module.py', 'exec'),
+             _OTHER_MODULE.__dict__)
+    return _OTHER_MODULE
+
+
+def _emit_here(text, category, log):        # ONE source line: repeated calls repeat (text, category, line)
+    log.append((text, category))
+    warnings.warn(text, category, 1)
+
+
+def _emit_caller(text, category, log):      # attributed to the caller's line (stacklevel 2)
+    log.append((text, category))
+    warnings.warn(text, category, 2)
+
+
+_EXPLICIT_REGISTRY = {}
+
+
+def _emit_explicit(text, category, log, lineno=3):
+    log.append((text, category))
+    warnings.warn_explicit(text, category, 'match_c06_explicit.py', lineno, registry=_EXPLICIT_REGISTRY)
+
+
+def _emit_other(text, category, log):
+    log.append((text, category))
+    _other_module().emit(text, category)
+
+
+def _p_same_twice(log):
+    for _ in range(2):
+        _emit_here('old thing', D, log)
+
+
+def _p_same_thrice(log):
+    for _ in range(3):
+        _emit_here('old thing', D, log)
+
+
+def _p_text_differs(log):
+    for t in ('old thing', 'old thing 2'):
+        _emit_here(t, D, log)
+
+
+def _p_category_differs(log):
+    for c in (D, PD):
+        _emit_here('old thing', c, log)
+
+
+def _p_line_differs(log):
+    log.append(('old thing', D))
+    warnings.warn('old thing', D, 1)
+    log.append(('old thing', D))
+    warnings.warn('old thing', D, 1)
+
+
+def _p_one_level1(log):
+    _emit_here('old thing', D, log)
+
+
+def _p_explicit_twice(log):
+    for _ in range(2):
+        _emit_explicit('old thing', D, log)
+
+
+def _p_other_module_twice(log):
+    for _ in range(2):
+        _emit_other('old thing', D, log)
+
+
+def _p_quiet_categories(log):
+    for c in (PD, ImportWarning, ResourceWarning):
+        _emit_here('careful', c, log)
+
+
+def _p_bytes_and_deprecation(log):
+    _emit_here('careful', BytesWarning, log)
+    _emit_caller('old thing', D, log)
+
+
+def _p_user_twice(log):
+    for _ in range(2):
+        _emit_here('careful', U, log)
+
+
+def _p_one_then_two(log):
+    _emit_caller('old thing', D, log)
+    for _ in range(2):
+        _emit_here('careful', U, log)
+
+
+def _p_caller_twice(log):
+    for _ in range(2):
+        _emit_caller('old thing', D, log)     # stacklevel 2: both attributed to the one line that called us
+
+
+def _p_explicit_lines_differ(log):
+    _emit_explicit('old thing', D, log, 3)
+    _emit_explicit('old thing', D, log, 4)
+
+
+# APPEND ONLY: a callable returning the int WARN_BASE + k runs WARN_PROGRAMS[k] first
+WARN_BASE = 1000
+WARN_PROGRAMS = [_p_same_twice, _p_same_thrice, _p_text_differs, _p_category_differs, _p_line_differs, _p_one_level1, _p_explicit_twice,
+                 _p_other_module_twice, _p_quiet_categories, _p_bytes_and_deprecation, _p_user_twice, _p_one_then_two, _p_caller_twice,
+                 _p_explicit_lines_differ]
+
+
 class Fn:
-    """interned callable: returns `ret`, or raises the interned exception `exc`; a callable returning the
-    int n first emits n % 3 warnings (only the opaque Warnings leaves can tell)."""
+    """interned callable: returns `ret`, or raises the interned exception `exc`.  Before it returns an int n it emits warnings (only
+    the opaque Warnings leaves can tell): n = WARN_BASE + k runs WARN_PROGRAMS[k] (repeats of one (text, category, line), warnings
+    that differ in one of the three, stacklevel 1 / 2, warn_explicit, another module, categories the default filters ignore); any
+    other n emits n % 3 warnings (a DeprecationWarning, then a UserWarning).  `emitted` is the callable's OWN record of what it
+    emitted during the last call - the oracle of the Warnings leaves reads that, not the warnings module."""
 
     def __init__(self, ret=None, exc=None):
         self.ret, self.exc = ret, exc
+        self.emitted = []
 
     def __call__(self):
         if self.exc is not None:
             raise self.exc
         if isinstance(self.ret, int) and self.ret is not True and self.ret is not False:
-            if self.ret % 3 >= 1:
-                warnings.warn('old thing', DeprecationWarning, 2)
-            if self.ret % 3 == 2:
-                warnings.warn('careful', UserWarning, 2)
+            self.emitted = log = []
+            if WARN_BASE <= self.ret < WARN_BASE + len(WARN_PROGRAMS):
+                WARN_PROGRAMS[self.ret - WARN_BASE](log)
+            else:
+                if self.ret % 3 >= 1:
+                    _emit_caller('old thing', D, log)
+                if self.ret % 3 == 2:
+                    _emit_caller('careful', U, log)
         return self.ret
 
     def __repr__(self):
@@ -501,10 +627,14 @@ def catalog():
         return s if s.endswith('\n') else s + '\n'
 
     def warns(f):
-        with warnings.catch_warnings(record=True) as w:
-            warnings.simplefilter('always')
+        """what the callable emits, by its own record (the warnings module is told to drop everything meanwhile)"""
+        with warnings.catch_warnings():
+            warnings.simplefilter('ignore')
             f()
-        return list(w)
+        class W:
+            def __init__(self, text, category):
+                self.message, self.category = text, category
+        return [W(t, c) for t, c in getattr(f, 'emitted', [])]
 
     def perms(p):
         return '%04o' % stat.S_IMODE(os.stat(p).st_mode)
@@ -559,6 +689,19 @@ def catalog():
     # 32..: SamePath on the spellings of the second tree (seed C06-f)
     WP = S.wide_paths()
     C += [('SamePath', lambda i=i: M.SamePath(WP[i]), lambda v, i=i: same_path(v, WP[i])) for i in SAMEPATH_WIDE]
+    # 44..: the documented predicates of the warnings matchers over the LIST of warnings the callable emits (seed C06-h)
+    dep = lambda x, text=None: x.category is DeprecationWarning and (text is None or str(x.message) == text)
+    C += [
+        ('Warnings', lambda: M.Warnings(M.HasLength(2)), lambda v: len(warns(v)) == 2),
+        ('Warnings', lambda: M.Warnings(M.HasLength(3)), lambda v: len(warns(v)) == 3),
+        ('WarningMessage', lambda: M.Warnings(M.AllMatch(M.WarningMessage(DeprecationWarning))), lambda v: all(dep(x) for x in warns(v))),
+        ('IsDeprecated', lambda: M.IsDeprecated(M.Always()), lambda v: (lambda w: len(w) == 1 and dep(w[0]))(warns(v))),
+        ('WarningMessage', lambda: M.Warnings(M.MatchesListwise([M.WarningMessage(DeprecationWarning, message=M.Equals('old thing'))] * 2)),
+         lambda v: (lambda w: len(w) == 2 and all(dep(x, 'old thing') for x in w))(warns(v))),
+        ('WarningMessage', lambda: M.Warnings(M.AnyMatch(M.WarningMessage(PendingDeprecationWarning))),
+         lambda v: any(x.category is PendingDeprecationWarning for x in warns(v))),
+        ('Warnings', lambda: M.Warnings(M.Not(M.HasLength(1))), lambda v: len(warns(v)) != 1),
+    ]
     return C
 
 
@@ -592,7 +735,10 @@ SAMEPATH_ROWS = [13, 31] + list(range(32, 32 + len(SAMEPATH_WIDE)))
 
 # which kind of matchee each catalog row is meant for (generator hint only)
 OPQ_FOR = {'str': [0, 1, 3, 4, 20, 21], 'bytes': [2], 'path': list(range(5, 15)) + [12, 22, 22, 23, 23, 24, 25, 26] + list(range(27, 32 + len(SAMEPATH_WIDE))),
-           'fn': [15, 16, 17], 'int': [18, 19]}
+           'fn': [15, 16, 17] + list(range(44, 51)), 'int': [18, 19]}
+WARN_ROWS = [15, 16, 17] + list(range(44, 51))
+# filters the CALLER has installed when match() runs (the matcher records everything regardless and puts them back)
+AMBIENT = ['ignore', 'error', 'once', 'default', 'always', 'module']
 
 
 class UnsafeInput(BaseException):
@@ -647,6 +793,8 @@ class C06(Prop):
         'the two builds of an expression differ in the iteration order of set(<matchers of a MatchesSetwise>), forced by re-allocating the matcher objects until list(set(..)) has the order given in the input (the verdict must not depend on it)',
         'MatchesSetwise asks every matcher about every value once, value by value (the first exception propagates); the pairing algorithm itself is abstracted to its outcome',
         'the class of an exception propagating out of an expression that contains a dict matcher is compared as Any (set-of-str iteration order is randomised per process; non-dict matchees make the three parts raise different classes)',
+        'callables and warnings: a callable returning the int 1000+k first runs warning program k (the same (text, category, line) twice / three times in a loop; two warnings that differ only in text, only in category, only in line; stacklevel 1 and 2; warn_explicit with one registry on one / two lines; emitted from another module with its own __warningregistry__; PendingDeprecationWarning / ImportWarning / ResourceWarning / BytesWarning, which the default filters ignore; one then two), other ints emit n % 3 warnings. Oracle of Warnings / WarningMessage / IsDeprecated = the documented predicate over the list the callable itself recorded while emitting (not obtained from the warnings module)',
+        'while match() runs the caller has a warning filter installed: "ignore", or - when only Warnings leaves call the callables - one of ignore / error / once / default / always / module chosen by the input; the verdict must not depend on it, and warnings.filters must be the same list afterwards (part of the `pure` clause: the unchanged code guarantees both through catch_warnings(record=True) + simplefilter("always"))',
         'exception vocabulary: the builtin classes of EXC and seven user-defined ones - MetaError(Exception, metaclass=abc.ABCMeta), its subclass MetaSub, MetaValueError(ValueError, metaclass=<a type subclass>), OddError(LookupError) with __slots__ and its own (honest: class and args) ==, StrRaisesError whose __str__ raises ValueError, UserInterrupt(KeyboardInterrupt), UserExit(SystemExit); `expected` is a class, a tuple of classes or (hint NT) a NAMED tuple of classes - a tuple subclass; value_re is None, a regex str (applied to str() of the exception) or a matcher; the instance form compares class (issubclass, as the code does) and args (one int). To the model a class is its row of bases only',
         'Raises: "Exceptions which are not subclasses of Exception propagate out of the Raises.match call unless they are explicitly matched" (docstring) - KeyboardInterrupt / SystemExit and their subclasses propagate when the exception matcher does not match them',
         'a value whose __str__ raises (StrRaisesError instances) makes MatchesException(type, "regex") and the `message % (x,)` of MatchesPredicate raise that ValueError inside match(): modelled; the spec says nothing (outside the documented domain of both)',
@@ -980,6 +1128,13 @@ class C06(Prop):
             return False
         return any(self.coarse(x) for x in t)
 
+    def ambient(self, inp):
+        r = repr(inp[0])
+        warn_leaf = any("['opq', %d," % k in r or "['opq', %d]" % k in r for k in WARN_ROWS)
+        if not warn_leaf or "'raises" in r:
+            return 'ignore'
+        return AMBIENT[zlib.crc32(repr(inp).encode()) % len(AMBIENT)]
+
     def run_impl(self, inp):
         self.cat()
         if self.unmodelled:
@@ -987,18 +1142,22 @@ class C06(Prop):
         m, v = inp
         try:
           with warnings.catch_warnings():
-            warnings.simplefilter('ignore')
+            # the caller's filters: 'ignore' - or, when only Warnings leaves call the callables (a Raises would see an 'error'
+            # filter turn the warning into an exception), one of AMBIENT chosen by the input
+            warnings.simplefilter(self.ambient(inp))
             ctx = Ctx()
             junk = []
             pv = build_v(v, ctx)
             ma = self.build_m(m, ctx, 0, junk)
             mb = self.build_m(m, ctx, 1, junk)
             sm0, sv0 = snap(ma), unbuild(pv)
+            filters0 = list(warnings.filters)
             first = self.verdict(ma, pv)
             again = self.verdict(ma, pv)
             other = self.verdict(mb, pv)
             pure_m = snap(ma) == sm0
-            pure_v = unbuild(pv) == sv0 and sv0 == (None if v == 'none' else v)
+            # "matching modifies neither the matcher nor the matched value" - nor the caller's warning filters
+            pure_v = unbuild(pv) == sv0 and sv0 == (None if v == 'none' else v) and list(warnings.filters) == filters0
             if self.coarse(m):
                 canon = lambda r: ['raised', 'Any'] if isinstance(r, list) else r
                 first, again, other = canon(first), canon(again), canon(other)
@@ -1018,6 +1177,10 @@ class C06(Prop):
                 return inp
         if x < 0.28:
             inp = self.complete(exc_case(rng, g))
+            if inp is not None:
+                return inp
+        if x < 0.33:
+            inp = self.complete(warn_case(rng))
             if inp is not None:
                 return inp
         depth = rng.choice([0, 1, 1, 2, 2, 2, 3, 3, 4])
@@ -1197,6 +1360,26 @@ def exc_case(r, g):
         m, v = ['raisesInst', r.choice([c] + EXC_BASES[c]), r.choice([a, a + 1])], ['fx', c, a]
     else:
         m, v = ['allmatch', em], ['l'] + [['ei', r.choice([c, r.choice(RAISABLE)]), a] for _ in range(r.choice([1, 2, 3]))]
+    return [m, v]
+
+
+def warn_case(r):
+    """a Warnings / WarningMessage / IsDeprecated leaf on a callable with a warning program (repeats of one warning, near-repeats,
+    other ways to emit, quiet categories) or one of the plain callables, alone or under a combinator"""
+    fn = lambda: ['fr', ['i', r.choice([WARN_BASE + r.randrange(len(WARN_PROGRAMS))] * 3 + [0, 1, 2, 4, 5])]]
+    row = lambda: ['opq', r.choice(WARN_ROWS)]
+    v = fn()
+    x = r.random()
+    if x < 0.5:
+        m = row()
+    elif x < 0.62:
+        m = ['not', row()]
+    elif x < 0.8:
+        m = (['all', r.random() < 0.3] if r.random() < 0.5 else ['any']) + [row() for _ in range(r.choice([2, 2, 3]))]
+    elif x < 0.88:
+        m = ['annot', row()]
+    else:
+        m, v = [r.choice(['allmatch', 'anymatch']), row()], ['l'] + [fn() for _ in range(r.choice([1, 2, 3]))]
     return [m, v]
 
 
